@@ -13,6 +13,12 @@ arbitrary finite number of lines into `conn.out` and block while it is full.
   `wg.Done()` (the closer keeps `mu` until `wg.Wait()` returns), so one record `g` describes the
   goroutines and queues of generation `cur`; goroutines that have left call `closeFor(theirCtx)` as
   "stragglers", which are threads like any other.
+* `Connected()` reads the flag under its own leaf lock `cmu` (fix a35e5c2), never under `mu`: a handler that asks
+  needs no step of this model's locks, which is why handlers here only emit lines. `internalConnect` sets the flag,
+  starts the goroutines and releases `mu` in that order; `cSucceed` does the three at once. That is a sound
+  abstraction with the flag write as the linearisation point: between it and the unlock the connecting thread
+  touches nothing another thread can see (`conn.ctx` is read under `mu` only), threads waiting for `mu` are merely
+  scheduled later, and the new goroutines' steps come after.
 * Ghost: `log`, the observable history with generation numbers.
 -/
 namespace Go.Life
